@@ -16,13 +16,13 @@ RULE = ('True attitude q*: class A = the shared unit-quaternion mixture over all
         'in [-80,80] deg, frame NED/ENU where selectable, positive scalings s_a, s_m in 10**U(-2,3). Measurements are the exact '
         'images s*R(q*)^T ref (or s*R(q*) ref) of each estimator\'s own reference vectors in the direction it documents (table '
         'in vf/estimators.py, self-tested). Every row is run through its per-sample entry point, its N=2 batch constructor and '
-        'its one-sample constructor call. Oracle: geodesic angle between the estimate and q* <= 1e-7 rad (tilt-only rows: angle '
+        'its one-sample constructor call; TRIAD, whose docstrings re-assign v1/v2 on an existing object, also through one object that has already estimated another pose under other references (other frame or dip). Oracle: geodesic angle between the estimate and q* <= 1e-7 rad (tilt-only rows: angle '
         'between gravity images); singularity-free rows on class A and B, closed-form/iterative rows on class B. OLEQ\'s random start '
         'vector is seeded from the case. Non-trivial: q* more than 5 deg from identity, '
         '|dip| >= 5 deg, s_a or s_m outside [0.5,2]; distinct = case hash.')
 ASSUMPTIONS = ['direction/reference table of vf/estimators.py (asserted exact on fixed generic attitudes at start-up)',
                'OLEQ: numpy global generator seeded per call']
-REQUIRED_LABELS = ['exact:weights=default', 'exact:weights=sum1', 'exact:weights=free', 'exact:class=A', 'exact:class=B', 'exact:frame=ENU', 'exact:pose=level', 'exact:pose=inverted', 'exact:pose=half_turn']
+REQUIRED_LABELS = ['exact:reused_object', 'exact:weights=default', 'exact:weights=sum1', 'exact:weights=free', 'exact:class=A', 'exact:class=B', 'exact:frame=ENU', 'exact:pose=level', 'exact:pose=inverted', 'exact:pose=half_turn']
 
 TOL = 1e-7
 _ROWS = None
@@ -134,6 +134,13 @@ def evaluate(case, ctx):
             entries.append(('batch', lambda: np.asarray(row.batch(ACC, MAG, frame, dip))[idx]))
             if row.one_sample:
                 entries.append(('one_sample', lambda: np.asarray(row.batch(np.array(acc), None if mag is None else np.array(mag), frame, dip))))
+        if row.reused is not None:
+            # one object that has already estimated another pose under other references (the other frame, another dip)
+            frame0 = [fr for fr in row.frames if fr != frame][0] if idx and len(row.frames) > 1 else frame
+            dip0 = -dip if idx else (dip + 37.0 if dip < 0 else dip - 37.0)
+            acc0, mag0 = E.measurements(row, q2, frame0, dip0, s_a, s_m)
+            entries.append(('reused_object', lambda: row.reused(np.array(acc), np.array(mag), frame, dip, np.array(acc0), np.array(mag0), frame0, dip0)))
+            ctx.label('reused_object')
         for ename, f in entries:
             if row.seeded:
                 np.random.seed(int(case['np_seed']))
